@@ -29,7 +29,7 @@ Theorem C02_prev_calls_model_kernel : forall l1 maxKB nextDist prevDist maxGap c
   16 <= maxKB -> maxKB <= 8192 -> cut_spec cut ->
   forall fuel s h k it' rs,
     s <= MAX64 ->
-    run nextDist prevDist maxGap (pg_primes (erat_model l1 maxKB)) cut fuel (fresh_iter s h) (repeat Prev k) = Done (it', rs) ->
+    run nextDist prevDist maxGap (pg_primes (erat_self l1 maxKB)) cut fuel (fresh_iter s h) (repeat Prev k) = Done (it', rs) ->
     let P := rev (primes_between 0 s) in
     rs = map Val (firstn k P) ++ repeat (Val 0) (k - length P).
 Proof. exact prev_calls_model. Qed.
